@@ -83,6 +83,18 @@ def build_case(
     )
 
 
+def shuffle_statements(draw: Callable, src: str, percent: int = 30) -> tuple[str, bool]:
+    """permute the source lines of a program (use before definition, consumers before producers):
+    the meaning of a logic program does not depend on statement order, ngo's analyses might"""
+    lines = [ln for ln in src.split("\n") if ln.strip()]
+    if len(lines) < 2 or draw(st.integers(0, 99)) >= percent:
+        return src, False
+    if any(ln.lstrip().startswith(("#program", "#theory", "&", "%")) or ln.rstrip().endswith(("{", ";")) for ln in lines):
+        return src, False
+    perm = draw(st.permutations(lines))
+    return "\n".join(perm), list(perm) != lines
+
+
 def sample(case: Case, out: Outcome) -> dict:
     """a case written out for the evidence file"""
     return {
@@ -222,7 +234,8 @@ def install(
             return build_case(draw, src, "grammar", tier, traits, decl=decl, facts_over=facts_over, sorts=GRAMMAR_SORTS)
         if k < gw + tw:
             src, name = template(draw)
-            return build_case(draw, src, "template:" + name, tier, traits, decl=decl, facts_over=facts_over)
+            src, shuffled = shuffle_statements(draw, src)
+            return build_case(draw, src, "template:" + name + ("+shuffled" if shuffled else ""), tier, traits, decl=decl, facts_over=facts_over)
         pool = (mutant_pool or corpus_sel)()
         item = draw(st.sampled_from(pool))
         from ..gen import mutate  # pylint: disable=import-outside-toplevel
